@@ -59,6 +59,12 @@ def stmt_tok(s):
         return "w %s %s" % (cond_tok(s[1]), stmt_tok(s[2]))
     if k == "return":
         return "r " + atom_tok(s[1])
+    if k == "return2":
+        return "R %s %s" % (atom_tok(s[1]), atom_tok(s[2]))
+    if k == "call2":
+        # ('call2', x, xe, f, args, cs)
+        return "C %d %s %s %d %d %s" % (s[5], "-" if s[1] is None else var_tok(s[1]), "-" if s[2] is None else var_tok(s[2]),
+                                        s[3], len(s[4]), " ".join(atom_tok(a) for a in s[4]))
     if k == "conv":
         return "v %s %d %d" % (var_tok(s[1]), s[2], s[3])
     if k == "calli":
@@ -100,6 +106,10 @@ def expand(p):
             pre = []
             args = lift(s[5], ctr, pre)
             return seq(pre + [("calli", s[1], s[2], s[3], s[4], args, s[6], s[7])])
+        if k == "call2":
+            pre = []
+            args = lift(s[4], ctr, pre)
+            return seq(pre + [("call2", s[1], s[2], s[3], args, s[5])])
         if k == "assign" and isinstance(s[2], tuple) and s[2][0] == "conv":
             return ("conv", s[1], s[2][1], s[2][2])
         if k == "return" and isinstance(s[1], tuple) and s[1][0] == "conv":
@@ -154,7 +164,7 @@ def flatten(s):
 def falls(s):
     """may control fall off the end of s (syntactic, as Go's terminating-statement rules see it)"""
     k = s[0]
-    if k == "return":
+    if k in ("return", "return2"):
         return False
     if k == "seq":
         return falls(s[1]) and falls(s[2])
@@ -205,6 +215,12 @@ def locals_of(s, acc=None):
     elif k == "calli":
         v(s[1]); v(s[2])
         for a in s[5]:
+            v(a)
+    elif k == "return2":
+        v(s[1]); v(s[2])
+    elif k == "call2":
+        v(s[1]); v(s[2])
+        for a in s[4]:
             v(a)
     return acc
 
@@ -272,6 +288,8 @@ class Printer:
         q = "" if k == 0 else self.pkgname(0) + "."
         if ty == "T":
             return "*" + q + "T"
+        if ty == "E":
+            return "error"
         return "%sI%d" % (q, ty[1])
 
     def implname(self, j, k):
@@ -287,7 +305,7 @@ class Printer:
         if v[0] == "L":
             if v[1] < self.cur_np:
                 return "p%d" % v[1]
-            return ("x%d" if self.ltype(self.cur_fd, v[1]) == "T" else "y%d") % v[1]
+            return {"T": "x%d", "E": "e%d"}.get(self.ltype(self.cur_fd, v[1]), "y%d") % v[1]
         gk = self.p["gpkg"][v[1]]
         return ("G%d" % v[1]) if gk == k else "%s.G%d" % (self.pkgname(gk), v[1])
 
@@ -437,6 +455,14 @@ class Printer:
             self.emit(t + "}")
         elif kind == "return":
             self.emit("%sreturn %s" % (t, self.atom(s[1], k)[0]))
+        elif kind == "return2":
+            ev = s[2]
+            et = "nil" if ev == "nil" else ('errors.New("x")' if ev == "new" else self.var(ev, k))
+            self.emit("%sreturn %s, %s" % (t, self.atom(s[1], k)[0], et))
+        elif kind == "call2":
+            ct, sites = self.callexpr(s[3], s[4], k, s[5])
+            pre = "%s%s, %s = " % (t, "_" if s[1] is None else self.var(s[1], k), "_" if s[2] is None else self.var(s[2], k))
+            self.emit(pre + ct, calls=[(c, oc + len(pre), oa + len(pre), ff) for c, oc, oa, ff in sites])
         elif kind == "conv":
             self.emit("%s%s = %s" % (t, self.var(s[1], k), self.convexpr(s[2], s[3], k)))
         elif kind == "calli":
@@ -490,12 +516,15 @@ class Printer:
             self.emit("package %s" % self.pkgname(k))
             self.emit("")
             self.emit("import (")
+            self.emit('\t"errors"')
+            self.emit("")
             self.emit('\t"%s/rt"' % MODULE)
             for j in self.imports_of(k):
                 self.emit('\t"%s"' % self.pkgpath(j))
             self.emit(")")
             self.emit("")
             self.emit("var _ = rt.Opaque")
+            self.emit("var _ = errors.New")
             if k == 0:
                 self.emit("type T struct{ V int }")
                 for ik, itf in enumerate(p.get("ifaces") or []):
@@ -531,6 +560,8 @@ class Printer:
                 ptypes = fd.get("ptypes") or ["T"] * fd["nparams"]
                 params = ["p%d %s" % (i, self.tyname(ptypes[i], k)) for i in range(fd["nparams"])]
                 rty = self.tyname(fd.get("rtype", "T"), k)
+                if fd.get("err"):
+                    rty = "(%s, error)" % rty
                 if fd.get("impl"):
                     j, m = fd["impl"]
                     recv = ("p0 S%d" if p["impls"][j].get("valrecv") else "p0 *S%d") % j
@@ -544,12 +575,12 @@ class Printer:
                 for x in ls:
                     bytype.setdefault(self.tyname(self.ltype(fd, x), k), []).append(x)
                 for tn in sorted(bytype):
-                    names = [("x%d" if tn.startswith("*") else "y%d") % x for x in bytype[tn]]
+                    names = [("x%d" if tn.startswith("*") else ("e%d" if tn == "error" else "y%d")) % x for x in bytype[tn]]
                     self.emit("\tvar %s %s" % (", ".join(names), tn))
                     self.emit("\t%s = %s" % (", ".join("_" for _ in names), ", ".join(names)))
                 self.stmt(fd["body"], k, 1)
                 if falls(fd["body"]):
-                    self.emit("\treturn nil")
+                    self.emit("\treturn nil, nil" if fd.get("err") else "\treturn nil")
                 self.emit("}")
                 self.emit("")
             out[self.curfile] = "\n".join(self.lines) + "\n"
@@ -603,6 +634,15 @@ class Printer:
                 c(s[1]); go(s[2])
             elif kind == "return":
                 v(s[1])
+            elif kind == "return2":
+                v(s[1]); v(s[2])
+            elif kind == "call2":
+                v(s[1]); v(s[2])
+                for a in s[4]:
+                    v(a)
+                fd = p["funcs"][s[3]]
+                if fd["pkg"] != k:
+                    deps.add(fd["pkg"])
             elif kind == "conv":
                 v(s[1])
                 if p["impls"][s[3]]["pkg"] != k:
